@@ -61,7 +61,7 @@ PROPS["C04"] = {
 
 
 # properties whose check is not green yet are not claimed in MANIFEST.json
-NOT_YET = ["C01", "C06", "C09", "C10", "C11", "C12", "C13", "C14", "C15"]
+NOT_YET = ["C01", "C03", "C06", "C09", "C10", "C11", "C12", "C13", "C14", "C15", "C16"]
 
 
 def select(pid, tier, seed):
@@ -256,6 +256,7 @@ PROPS["C01"] = {
     ] + enter_set("cli_steps::key_enter", ["C01"]) + [
         H("cli_steps::process_input_routing", tags=["C01", "C12"], bounds="every token buffer of <= 6 well-formed bytes handed to process_input", timeout=2400, mem=14),
         H("cli_steps::api_build", tags=["C01"], bounds="CliBuilder::build() with each of the three prompts"),
+        H("cli_glue::glue_ascii", tags=["C01"], features=[], cfg=["vp_h0"], nodebug=True, bounds="process_byte(b) vs accept(b) + per-key entry: ANY editor state (N=3), ANY decoder state, every byte < 0x80; optional features off (process_byte has no cfg gate - checked textually)", timeout=2400, mem=12),
         H("cli_steps::key_enter_twin", kind="twin", cfg=["vp_h0"], mem=10),
     ],
 }
@@ -321,4 +322,116 @@ PROPS["C14"] = {
         H("cli_fail::fail_group_help", tags=["C14", "C12"], bounds="help for a command of the first / second member of a derived command group and `-h` on a command, fault at any call position (once or permanently)", timeout=1800, mem=8),
         H("cli_fail::fail_twin", kind="twin"),
     ],
+}
+
+# ---------------------------------------------------------------------------- C16: all 8 feature combinations
+import itertools
+
+
+def _c16():
+    hs = []
+    names = ["history", "autocomplete", "help"]
+    for r in range(0, 4):
+        for combo in itertools.combinations(names, r):
+            feats = list(combo)
+            label = "+".join(feats) or "none"
+            for k in ["key_up", "key_down", "key_tab", "key_backspace", "key_char2"]:
+                d = dict(features=feats, tags=["C16", "C01", "C05", "C10", "C15"], bounds="features {%s}: %s from ANY CliInv state (N=3,H=3)" % (label, k), timeout=900, mem=4)
+                if "char" in k:
+                    d["nodebug"] = True
+                hs.append(H("cli_steps::" + k, **d))
+            hs.append(H("cli_steps::process_input_routing", features=feats, tags=["C16", "C01", "C12", "C15"], bounds="features {%s}: every token buffer of <= 6 bytes handed to process_input" % label, timeout=2400, mem=14))
+            if len(feats) in (0, 3) or feats == ["help"]:
+                hs.append(H("cli_steps::key_enter_v2", features=feats, cfg=["vp_h0"], tags=["C16", "C01", "C15"], bounds="features {%s}: Enter, line of 2 bytes, N=3, history buffer of size 0" % label, timeout=2400, mem=10))
+    hs.append(H("cli_steps::key_enter_twin", kind="twin", cfg=["vp_h0"], mem=10))
+    return hs
+
+
+PROPS["C16"] = {
+    "claim": "all 8 combinations of {history, autocomplete, help} (macros on) build, and in each the Cli-level steps (Up, Down, Tab, Backspace, a typed 2-byte scalar from ANY CliInv state; process_input on every token buffer <= 6 bytes; Enter in three combinations) satisfy the same post-conditions as in the default build except for the disabled facility: without history Up/Down change neither line nor output, without autocomplete Tab likewise, without help every help-shaped token list reaches the handler",
+    "assumptions": CLI_ASSUME,
+    "build_failure_is_violation": True,
+    "harnesses": _c16(),
+}
+
+
+def _c03():
+    hs = []
+    for n in (0, 1, 2):
+        for h in (0, 1, 2):
+            cfg = ["vp_n%d" % n, "vp_h%d" % h]
+            b = "N=%d, H=%d" % (n, h)
+            for k in ["key_backspace", "key_forward", "key_back", "key_up", "key_down", "key_tab", "key_char1", "key_char2", "api_write_set_prompt", "api_build"] + ["key_enter_v%d" % v for v in range(0, n + 1)]:
+                d = dict(cfg=list(cfg), tags=["C03"], tier=("both" if n == h else "thorough"), bounds="%s: %s from ANY CliInv state; only Kani's own checks (panic, overflow, bounds, pointer validity, unchecked preconditions) are counted" % (b, k), timeout=1500, mem=6)
+                if "char" in k:
+                    d["nodebug"] = True
+                hs.append(H("cli_steps::" + k, **d))
+    # component harnesses whose buffers have symbolic / boundary sizes
+    hs += [
+        H("c05_editor::c05_insert_char", tags=["C03"], bounds="editor buffer of every size 0..=6", timeout=900, mem=4),
+        H("c05_editor::c05_insert_text", tags=["C03"], bounds="editor buffer of every size 0..=6", timeout=900, mem=4),
+        H("c05_editor::c05_backspace", tags=["C03"], bounds="editor buffer of every size 0..=6"),
+        H("c05_editor::c05_observers", tags=["C03"], bounds="editor buffer of every size 0..=6"),
+        H("c11_complete::c11_editor_autocompletion", tags=["C03"], bounds="editor buffer of every size 0..=6, <=2 candidates", timeout=1500, mem=8),
+        H("c11_complete::c11_merge_tight", tags=["C03"], bounds="free space 0..=4", timeout=900, mem=4),
+        H("c10_history::h0::push_step", tags=["C03"], bounds="H=0"),
+        H("c10_history::h1::push_step", tags=["C03"], bounds="H=1"),
+        H("c10_history::h2::push_step", tags=["C03"], bounds="H=2"),
+        H("c10_history::h1::navigate_step", tags=["C03"], bounds="H=1"),
+        H("c10_history::h2::navigate_step", tags=["C03"], bounds="H=2"),
+        H("c02_utf8::c02_acc_step", tags=["C03"], bounds="any accumulator state x every byte", exhaustive=True),
+        H("c04_decoder::c04_decoder_step", tags=["C03"], bounds="any decoder state x every byte", exhaustive=True),
+        H("c17_scalars::c17_pop_front", tags=["C03"], bounds="char_pop_front on every pair of scalars (from_u32_unchecked precondition)", exhaustive=True),
+        H("c07_tokens::c07_tokens_vs_model", tags=["C03"], bounds="in-place tokenisation of every line <= 6 bytes", timeout=900, mem=4),
+        H("cli_steps::key_enter_twin", kind="twin", cfg=["vp_h0"], mem=10),
+    ]
+    return hs
+
+
+def static_c03(repo):
+    """inventory of the unsafe sites (goes into the evidence)"""
+    notes = []
+    total = 0
+    for root, _, files in os.walk(os.path.join(repo, "embedded-cli", "src")):
+        for f in sorted(files):
+            if f.endswith(".rs"):
+                src = open(os.path.join(root, f)).read()
+                body = src.split("#[cfg(test)]")[0]
+                n = len(re.findall(r"\bunsafe\b", body))
+                if n:
+                    notes.append("%s: %d unsafe blocks/fns" % (f, n))
+                    total += n
+    notes.append("total unsafe sites in library code: %d" % total)
+    return notes
+
+
+def static_c01(repo):
+    """process_byte must not contain cfg gates (the glue harness is decided in one configuration)"""
+    src = open(os.path.join(repo, "embedded-cli", "src", "cli.rs")).read()
+    i = src.index("pub fn process_byte")
+    depth = 0
+    j = src.index("{", i)
+    k = j
+    while True:
+        if src[k] == "{":
+            depth += 1
+        elif src[k] == "}":
+            depth -= 1
+            if depth == 0:
+                break
+        k += 1
+    body = src[j:k]
+    if "cfg" in body:
+        raise StaticCheckFailed("a cfg gate appeared inside Cli::process_byte: the glue transfer argument no longer holds")
+    return ["Cli::process_byte contains no cfg gate (%d bytes of source inspected)" % len(body)]
+
+
+PROPS["C03"] = {
+    "claim": "no failed Kani check (panic, unwrap on None, arithmetic overflow, slice / pointer out of bounds, precondition of copy_nonoverlapping / get_unchecked / from_raw_parts_mut / unwrap_unchecked, explicit debug assertions) in any Cli-level step (every key, Enter, Tab, Cli::write, set_prompt, build) from ANY CliInv state for the boundary sizes (N,H) in {0,1,2}x{0,1,2}, nor in the component steps with symbolic buffer sizes including 0 (editor 0..=6, history 0..=2, completion free space 0..=4), nor in the unbounded decoder/accumulator/char kernels; by induction over one step, for call sequences of any length",
+    "assumptions": CLI_ASSUME + [
+        "only untagged failures (Kani's built-in checks) count for C03; functional assertions belong to the other properties",
+        "well-formedness of text before from_utf8_unchecked consumers is C02's explicit assertion",
+        "sizes 3..64: N=H=3 is covered by C01/C05/C06/C14; larger sizes are outside the solver claim",
+    ],
+    "harnesses": _c03(),
 }
